@@ -21,7 +21,7 @@ var libInvokeMods = map[string][]string{
 
 func libAllocates(name string) bool {
 	switch name {
-	case "bytes.NewBuffer", "bufio.NewReader", "bufio.NewReaderSize", "errors.New", "fmt.Errorf", "net.DialTCP", "net.Dial":
+	case "bytes.NewBuffer", "bufio.NewReader", "bufio.NewReaderSize", "errors.New", "fmt.Errorf", "net.DialTCP", "net.Dial", "net.ResolveUDPAddr", "net.ResolveTCPAddr":
 		return true
 	}
 	return false
@@ -117,6 +117,12 @@ func init() {
 				}
 			}
 			return tuple(&Val{T: n, S: SInt}, errv)
+		},
+		"net.Addr.String": func(fr *Frame, ins ssa.Instruction, recv *Val, args []*Val, rs *Sort) *Val {
+			// the printed form of a socket address resolves again (assumed library fact)
+			r := fr.havocVal("addrstr", SString)
+			fr.ex.vc.assume("(isSockAddr " + r.T + ")")
+			return r
 		},
 		"net.Conn.Close": func(fr *Frame, ins ssa.Instruction, recv *Val, args []*Val, rs *Sort) *Val {
 			ex := fr.ex
@@ -254,6 +260,12 @@ func init() {
 		// ---- net ----
 		"net.JoinHostPort": func(fr *Frame, ins ssa.Instruction, a []*Val, rs *Sort) *Val {
 			return &Val{T: "(joinHostPort " + a[0].T + " " + a[1].T + ")", S: SString}
+		},
+		"net.ResolveUDPAddr": func(fr *Frame, ins ssa.Instruction, a []*Val, rs *Sort) *Val {
+			return fr.resolveAddr(a[1], "net_UDPAddr")
+		},
+		"net.ResolveTCPAddr": func(fr *Frame, ins ssa.Instruction, a []*Val, rs *Sort) *Val {
+			return fr.resolveAddr(a[1], "net_TCPAddr")
 		},
 		"(*net.UDPAddr).String": func(fr *Frame, ins ssa.Instruction, a []*Val, rs *Sort) *Val {
 			return &Val{T: "(udpAddrString " + a[0].T + ")", S: SString}
@@ -472,14 +484,26 @@ func (fr *Frame) callLib(ins ssa.Instruction, callee *ssa.Function, args []*Val,
 	ex.vc.note("library call " + name + ": results unconstrained, no effect on tracked state")
 	r := fr.havocVal("lib_"+callee.Name(), resSort)
 	switch name {
-	case "(*net.UDPConn).LocalAddr", "(*net.UDPConn).RemoteAddr", "(*net.TCPConn).LocalAddr", "(*net.TCPConn).RemoteAddr", "go.uber.org/zap.L", "zap.L":
+	case "(*net.UDPConn).LocalAddr", "(*net.UDPConn).RemoteAddr", "(*net.TCPConn).LocalAddr", "(*net.TCPConn).RemoteAddr", "(*net.conn).LocalAddr", "(*net.conn).RemoteAddr", "(*net.TCPListener).Addr", "go.uber.org/zap.L", "zap.L":
 		if r.S.K == KAny {
 			ex.vc.assume(not(eq(r.T, "anyNil")))
 		} else if r.S.K == KRef {
 			ex.vc.assume("(> " + r.T + " 0)")
 		}
 	}
+	ex.libResultConvention(name, callee.Signature, r)
 	return r
+}
+
+// resolveAddr models net.Resolve{UDP,TCP}Addr: a fresh address object or an error; the printed form of a
+// socket address always resolves.
+func (fr *Frame) resolveAddr(s *Val, sortName string) *Val {
+	ex := fr.ex
+	errv := fr.havocVal("resolveerr", SAny)
+	r := ex.alloc(fr.cur, "addr")
+	ex.vc.assume(imp("(isSockAddr "+s.T+")", eq(errv.T, "anyNil")))
+	v := ex.vc.define("resolved", SRef(sortName), ite(eq(errv.T, "anyNil"), r, "0"))
+	return tuple(&Val{T: v, S: SRef(sortName)}, errv)
 }
 
 // dial models net.Dial / net.DialTCP: a fresh connection or an error; the outcome is unconstrained.
